@@ -6,6 +6,7 @@ import (
 	"reflect"
 	"regexp"
 	"runtime"
+	"strconv"
 	"strings"
 	"sync"
 
@@ -206,7 +207,51 @@ func freshEmbedOps() []concOp {
 		v.Field(3).Field(1).SetString("tlas")
 		return v
 	}
-	return []concOp{
+	// an inner struct that declares the HashPrefix itself, used on its own AND embedded (the outer type inherits the prefix)
+	innerP := reflect.StructOf([]reflect.StructField{
+		{Name: "HashPrefix", Type: reflect.TypeOf(""), Tag: `hash:""`},
+		{Name: "V", Type: reflect.TypeOf(uint8(0)), Tag: `hash:"param:v"`},
+		{Name: fmt.Sprintf("Ignored%d", freshCounter), Type: reflect.TypeOf(0), Tag: `hash:"-"`},
+	})
+	outerP := reflect.StructOf([]reflect.StructField{
+		{Name: "Inner", Type: innerP, Anonymous: true},
+		{Name: "Salt", Type: reflect.TypeOf(""), Tag: `hash:""`},
+		{Name: "Sum", Type: reflect.TypeOf(""), Tag: `hash:""`},
+	})
+	mkInnerP := func() reflect.Value {
+		v := reflect.New(innerP).Elem()
+		v.Field(0).SetString("$x$")
+		v.Field(1).SetUint(3)
+		return v
+	}
+	mkOuterP := func() reflect.Value {
+		v := reflect.New(outerP).Elem()
+		v.Field(0).Set(mkInnerP())
+		v.Field(1).SetString("salt")
+		v.Field(2).SetString("sum")
+		return v
+	}
+	prefixOps := []concOp{
+		{"embed marshal InnerP alone", func() string {
+			s, err := crypthash.Marshal(mkInnerP().Interface())
+			return fmt.Sprintf("%q %v", s, err != nil)
+		}},
+		{"embed marshal OuterP", func() string {
+			s, err := crypthash.Marshal(mkOuterP().Interface())
+			return fmt.Sprintf("%q %v", s, err != nil)
+		}},
+		{"embed unmarshal OuterP", func() string {
+			pv := reflect.New(outerP)
+			err := crypthash.Unmarshal("$x$v=9$ss$dd", pv.Interface())
+			return fmt.Sprintf("%v %v %v %v %v", pv.Elem().Field(0).Field(0).String(), pv.Elem().Field(0).Field(1).Uint(), pv.Elem().Field(1).String(), pv.Elem().Field(2).String(), err != nil)
+		}},
+		{"embed unmarshal InnerP alone", func() string {
+			pv := reflect.New(innerP)
+			err := crypthash.Unmarshal("$x$v=7", pv.Interface())
+			return fmt.Sprintf("%v %v %v", pv.Elem().Field(0).String(), pv.Elem().Field(1).Uint(), err != nil)
+		}},
+	}
+	return append(prefixOps, []concOp{
 		{"embed marshal A", func() string {
 			s, err := crypthash.Marshal(mkA().Interface())
 			return fmt.Sprintf("%q %v", s, err != nil)
@@ -225,7 +270,30 @@ func freshEmbedOps() []concOp {
 			err := crypthash.Unmarshal("$b$c=3$pp$rounds=8$tt", pv.Interface())
 			return fmt.Sprintf("%v %v %v %v %v", pv.Elem().Field(1).Uint(), pv.Elem().Field(2).String(), pv.Elem().Field(3).Field(0).Uint(), pv.Elem().Field(3).Field(1).String(), err != nil)
 		}},
+	}...)
+}
+
+// ptrCost implements the text codec on the POINTER receiver only: whether Marshal honours it must not
+// depend on the form (T, *T, **T) in which the struct reaches Marshal.
+type ptrCost uint8
+
+func (h *ptrCost) MarshalText() ([]byte, error) {
+	if *h > 31 {
+		return nil, errors.New("cost out of range")
 	}
+	return []byte(fmt.Sprintf("%02d", uint8(*h))), nil
+}
+
+func (h *ptrCost) UnmarshalText(text []byte) error {
+	n, err := strconv.ParseUint(string(text), 10, 8)
+	*h = ptrCost(n)
+	return err
+}
+
+type concPtrCodec struct {
+	HashPrefix string
+	Cost       ptrCost
+	Salt       string
 }
 
 func suiteConc(c *Ctx) {
@@ -462,10 +530,16 @@ func suiteCache(c *Ctx) {
 		c.NonTrivial(fmt.Sprint("seq", s))
 	}
 	// value / pointer / pointer-to-pointer forms marshal to the same string
-	forms := marshalForms("ok", concA{HashPrefix: "$t$", Rounds: 5, Salt: []byte("ab"), Sum: [4]byte{'w', 'x', 'y', 'z'}})
-	a, b, d := forms[0].run(), forms[1].run(), forms[2].run()
-	if a != b || a != d {
-		c.Fail("form-dependent", fmt.Sprintf("T: %s, *T: %s, **T: %s", a, b, d), map[string]string{"suite": "cache"})
+	for _, forms := range [][]concOp{
+		marshalForms("ok", concA{HashPrefix: "$t$", Rounds: 5, Salt: []byte("ab"), Sum: [4]byte{'w', 'x', 'y', 'z'}}),
+		marshalForms("ptr-receiver codec", concPtrCodec{HashPrefix: "$t$", Cost: 5, Salt: "salt"}),
+		marshalForms("ptr-receiver codec, rejected value", concPtrCodec{HashPrefix: "$t$", Cost: 77, Salt: "salt"}),
+	} {
+		a, b, d := safely(forms[0].run), safely(forms[1].run), safely(forms[2].run)
+		c.Direct += 3
+		if a != b || a != d {
+			c.Fail("form-dependent", fmt.Sprintf("%s — T: %s, *T: %s, **T: %s", forms[0].name, a, b, d), map[string]string{"suite": "cache", "op": forms[0].name})
+		}
 	}
 	// observed facts about the cache protocol (C08/C18 tie): does getTypeInfo return the cached object?
 	t := reflect.TypeOf(concA{})
